@@ -36,7 +36,11 @@ RELATIONS = [
     ("cp_apr:pqnr", "dense-sparse"), ("cp_apr:pqnr", "print"), ("cp_apr:pqnr", "seed"),
     ("gcp:lbfgsb", "print"), ("gcp:lbfgsb", "seed"), ("gcp:sgd", "seed"), ("gcp:adam", "seed"), ("gcp:sgd", "print"),
     ("gcp:sgd", "seed-sparse"), ("gcp:adam", "seed-sparse"), ("gcp:lbfgsb", "reused-optimizer"), ("gcp:adam", "reused-optimizer"),
+    ("gcp:lbfgsb", "relabel"), ("gcp:lbfgsb", "relabel4"), ("cp_als", "relabel4"),
 ]
+# four-way shapes for the relabelling relation: a dominant first / last / interior mode moves the split of the all-modes MTTKRP (GCP
+# gradients) so that two or more modes fall into one partial product; interior modes of a 4-way dense MTTKRP (CP-ALS)
+SHAPES4 = [[9, 2, 2, 3], [2, 2, 9, 9], [4, 3, 2, 5], [2, 8, 3, 2], [3, 2, 2, 7], [3, 3, 3, 3]]
 
 
 def nontrivial(case):
@@ -50,7 +54,14 @@ def gen_cases(tier, seed):
     for rep_i in range(reps):
         for alg, rel in RELATIONS:
             N = 3 if rel == "relabel" else int(rng.integers(3, 5))
-            yield {"w": "pair", "alg": alg, "rel": rel, "shape": [int(s) for s in rng.integers(3, 6, size=N)], "R": 2, "zero_guess": bool(rep_i % 2),
+            shp = [int(s) for s in rng.integers(3, 6, size=N)]
+            if rel == "relabel4":
+                continue
+            yield {"w": "pair", "alg": alg, "rel": rel, "shape": shp, "R": 2, "zero_guess": bool(rep_i % 2),
+                   "gseed": int(rng.integers(0, 2 ** 31)), "cseed": int(seed) * 217645177 % (2 ** 31) + next(cs)}
+    for shp in SHAPES4:
+        for alg in ("gcp:lbfgsb", "cp_als"):
+            yield {"w": "pair", "alg": alg, "rel": "relabel4", "shape": list(shp), "R": 2, "zero_guess": False,
                    "gseed": int(rng.integers(0, 2 ** 31)), "cseed": int(seed) * 217645177 % (2 ** 31) + next(cs)}
 
 
@@ -100,6 +111,10 @@ def run_case(case, ctx):
         return _quiet(f, *a, **k)
 
     perms = [np.array(p) for p in itertools.permutations(range(N))] if N == 3 else []
+    if rel == "relabel4":
+        allp = [np.array(p) for p in itertools.permutations(range(N))][1:]
+        perms = [allp[int(i)] for i in rng.choice(len(allp), size=4, replace=False)] + [np.arange(N)[::-1].copy()]
+        rel = "relabel"
     if alg == "cp_als":
         op = "cp_als"
         kw = dict(maxiters=5, stoptol=0)
@@ -135,7 +150,7 @@ def run_case(case, ctx):
                 _cmp(ctx, op, denote(a[0]), denote(c_[0]), "integer-typed vs float-typed dense data", which="dtype")
         else:
             M0 = ttb.ktensor([rng.random((s, R)) for s in shape])
-            do = [1, 2, 0]
+            do = [1, 2, 0] if N == 3 else [2, 0, 3, 1]
             base = _quiet(ttb.cp_als, T, R, init=M0.copy(), printitn=0, dimorder=do, **kw)
             for p in perms:
                 inv = np.argsort(p)
@@ -289,6 +304,26 @@ def run_case(case, ctx):
             b = seeded(ttb.gcp_opt, S, R, Objectives.GAUSSIAN, mk(), sampler=smp(), printitn=0)
             _cmp(ctx, op, denote(a[0]), denote(b[0]), "same seed twice (sparse data, subsampled nonzeros)", exact=True)
             _cmp(ctx, op, denote(a[1]), denote(b[1]), "same seed twice: starting guess", exact=True, which="guess")
+        elif rel == "relabel":
+            # all mode gradients are computed at once and the variables are updated together, so the run is the same up to rounding
+            # under any consistent relabelling of data and guess
+            M0g = ttb.ktensor([rng.random((s_, R)) for s_ in shape])
+            base = _quiet(ttb.gcp_opt, T, R, Objectives.GAUSSIAN, LBFGSB(maxiter=4), init=M0g.copy(), printitn=0)
+
+            def sens():
+                out = []
+                for k in range(3):
+                    Mp = M0g.copy()
+                    prng = np.random.default_rng(case["cseed"] + 7919 * (k + 1))
+                    for i_, fm in enumerate(Mp.factor_matrices):
+                        Mp.factor_matrices[i_] = fm * (1.0 + 2.0 ** -50 * prng.integers(-2, 3, size=fm.shape))
+                    out.append(denote(_quiet(ttb.gcp_opt, T, R, Objectives.GAUSSIAN, LBFGSB(maxiter=4), init=Mp, printitn=0)[0]))
+                return out
+            for p in perms:
+                if np.array_equal(p, np.arange(N)):
+                    continue
+                o = _quiet(ttb.gcp_opt, T.permute(p), R, Objectives.GAUSSIAN, LBFGSB(maxiter=4), init=M0g.copy().permute(p), printitn=0)
+                _cmp(ctx, op, np.transpose(denote(base[0]), p), denote(o[0]), f"modes relabelled by {p.tolist()}", sens=sens, N=N)
         elif rel == "print":
             a = seeded(ttb.gcp_opt, T, R, Objectives.GAUSSIAN, mk(), printitn=0)
             b = seeded(ttb.gcp_opt, T, R, Objectives.GAUSSIAN, mk(), printitn=1)
